@@ -617,9 +617,17 @@ def svf_section(loader):
     saved = {k: loader.mods.get(k) for k in stubs}
     loader.mods.update({k: v for k, v in stubs.items()})
     loader.mods.pop("deepali.spatial.nonrigid", None)
+    stub_kernels = "kernels" not in core.__dict__
+    if stub_kernels:
+        core.kernels = types.SimpleNamespace()
+    loader.mods.pop("deepali.spatial.bspline", None)
     try:
         N = loader.load("deepali.spatial.nonrigid")
+        Bsp = loader.load("deepali.spatial.bspline")
     finally:
+        loader.mods.pop("deepali.spatial.bspline", None)
+        if stub_kernels:
+            del core.__dict__["kernels"]
         for k, v in saved.items():
             if v is None:
                 loader.mods.pop(k, None)
@@ -631,6 +639,38 @@ def svf_section(loader):
         else:
             del core.__dict__["functional"]
     SVF = N.StationaryVelocityFieldTransform
+    # ---- inverse(update_buffers): the inverse's u is computed by the INVERSE exponential from the shared v ----
+    inv_ok = {}
+    for cname, Cls in (("svf", SVF), ("svffd", Bsp.StationaryVelocityFreeFormDeformation)):
+        class Rec:
+            def __init__(self, tag):
+                self.tag = tag
+
+            def inverse(self):
+                return Rec(self.tag + ".inverse()")
+
+            def __call__(self, v):
+                return ("exp", self.tag, v)
+        for upd in (True, False):
+            obj = object.__new__(Cls)
+            obj.exp = Rec("exp")
+            obj.v = "V"
+            obj.u = "U-of-original"
+            Cls.register_buffer = lambda self, name, t, persistent=True: setattr(self, name, t)
+            try:
+                inv = Cls.inverse(obj, update_buffers=upd)
+            finally:
+                del Cls.register_buffer
+            if inv is obj or obj.exp.tag != "exp" or obj.u != "U-of-original":
+                raise TraceError(f"{Cls.__name__}.inverse modifies the transformation it is called on")
+            if inv.exp.tag != "exp.inverse()":
+                raise TraceError(f"{Cls.__name__}.inverse: exponential of the inverse is {inv.exp.tag}")
+            if upd:
+                inv_ok[cname] = (inv.u == ("exp", "exp.inverse()", "V"))
+                if not inv_ok[cname] and inv.u != ("exp", "exp", "V"):
+                    raise TraceError(f"{Cls.__name__}.inverse(update_buffers=True): u = {inv.u!r}")
+            elif inv.u != "U-of-original":
+                raise TraceError(f"{Cls.__name__}.inverse(update_buffers=False) recomputes u")
     init, after = {}, {}
     for old in (True, False):
         g1 = FakeGrid(old, "g1")
@@ -658,11 +698,15 @@ def svf_section(loader):
 
     def b(x):
         return "true" if x else "false"
+    inv_defs = ("(* inverse(update_buffers=True) of the stationary velocity transforms: is the inverse's u buffer computed by the INVERSE\n"
+                "   exponential (exp.inverse()) from the shared v buffer?  (SVF: spatial/nonrigid.py, SVFFD: spatial/bspline.py) *)\n"
+                f"Definition gen_svf_inverse_u_by_inverse_exp : bool := {b(inv_ok['svf'])}.\n"
+                f"Definition gen_svffd_inverse_u_by_inverse_exp : bool := {b(inv_ok['svffd'])}.\n")
     arms = "\n".join(f"  | {b(o)}, {b(n)} => {b(after[(o, n)])}" for o in (True, False) for n in (True, False))
     return ("(* spatial/nonrigid.py StationaryVelocityFieldTransform: align_corners of its ExpFlow module at construction on a grid with\n"
             "   flag ac, and after grid_(g) / grid(g) from a grid with flag `old` to one with flag `new` *)\n"
             f"Definition gen_svf_init_exp_ac (ac : bool) : bool := if ac then {b(init[True])} else {b(init[False])}.\n"
-            f"Definition gen_svf_regrid_exp_ac (old new : bool) : bool :=\n  match old, new with\n{arms}\n  end.\n")
+            f"Definition gen_svf_regrid_exp_ac (old new : bool) : bool :=\n  match old, new with\n{arms}\n  end.\n" + inv_defs)
 
 
 # ------------------------------------------------------------------------------------------------
@@ -731,6 +775,46 @@ def logv_spacing_section(flow_mod, img):
     return "\n".join(lines) + "\n"
 
 
+# ------------------------------------------------------------------------------------------------
+# dtype of the identity coordinates: expv / compose_flows must build them in the dtype of the field
+# ------------------------------------------------------------------------------------------------
+def coords_dtype_section(mods):
+    flow_mod, img, grid_mod = mods
+    res = {}
+    for fn in ("expv", "compose_flows"):
+        ok = True
+        for dt in (st.float64, st.float32):
+            seen = []
+            orig = grid_mod.Grid.coords
+
+            def coords(self, *a, **k):
+                seen.append(k.get("dtype"))
+                return orig(self, *a, **k)
+            rec = Recorder()
+            Fp = TorchProxy(st.functional, grid_sample=rec)
+            u = sym((1, 2, 2, 4), "f")
+            u.dtype = dt
+            v = sym((1, 2, 2, 4), "g")
+            v.dtype = dt
+            grid_mod.Grid.coords = coords
+            try:
+                with patched(img, "F", Fp), patched(flow_mod, "F", Fp), patched(grid_mod, "torch", torch_proxy()):
+                    if fn == "expv":
+                        flow_mod.expv(u, steps=1, align_corners=False)
+                    else:
+                        flow_mod.compose_flows(u, v, align_corners=False)
+            finally:
+                grid_mod.Grid.coords = orig
+            if len(seen) != 1:
+                raise TraceError(f"{fn} builds its coordinates {len(seen)} times")
+            ok = ok and (seen[0] is dt)
+        res[fn] = ok
+    return ("(* are the identity coordinates built in the dtype of the field (Grid.coords(dtype=flow.dtype))?  Otherwise float64 fields\n"
+            "   are displaced on float32 coordinates (errors of 1e-8 instead of 1e-16) *)\n"
+            f"Definition gen_expv_coords_in_field_dtype : bool := {'true' if res['expv'] else 'false'}.\n"
+            f"Definition gen_compose_coords_in_field_dtype : bool := {'true' if res['compose_flows'] else 'false'}.\n")
+
+
 def generate(loader):
     flow_mod = loader.load("deepali.core.flow")
     img = loader.load("deepali.core.image")
@@ -743,6 +827,7 @@ def generate(loader):
         dsteps = expv_defaults(mods)
         expflow = expflow_section(loader, flow_mod)
         svf = svf_section(loader)
+        cdt = coords_dtype_section(mods)
     out += pre
     out += emit_flags("gen_expv", eflags)
     out += emit_flags("gen_compose", cflags)
@@ -769,4 +854,5 @@ def generate(loader):
     out.append(f"(* expv(flow) with steps=None: number of squaring steps (scale=None is 1: checked on the trace) *)\nDefinition gen_expv_default_steps : nat := {dsteps}%nat.\n")
     out.append(expflow)
     out.append(svf)
+    out.append(cdt)
     return "\n".join(out)
